@@ -1,5 +1,5 @@
 (* Oracle entry points for C10 (glue: decoding of protocol values; unverified, trusted). *)
-From MoPep Require Import Model.Base Model.Rule Model.Digest Gen.Expasy Gen.Bio.
+From MoPep Require Import Model.Base Model.Rule Model.Digest Model.ExpasyRef Gen.Expasy Gen.Bio.
 Open Scope Z_scope.
 
 Definition nat_list (l : list nat) : val := VL (map (fun n => VZ (Z.of_nat n)) l).
@@ -52,3 +52,10 @@ Definition api_pool (v : val) : val :=
 
 (* names of the translated rules, for the harness *)
 Definition api_rule_names (_ : val) : val := ofSS (map fst site_rules).
+
+(* the same site computation with the REFERENCE table (used to search for a failing input when the
+   regenerated table no longer equals the reference) : [rule; exc; s] *)
+Definition api_sites_ref (v : val) : val :=
+  let get n := match lookup (getS n) reference_rules with Some r => r | None => [] end in
+  let exc := match getL (argn 1 v) with [] => None | _ => lookup (getS (argn 1 v)) reference_rules end in
+  nat_list (sites (get (argn 0 v)) exc (getS (argn 2 v))).
